@@ -117,7 +117,7 @@ class VHDX(AlignedStream):
                 # The block is not present in this file
                 # If we have a parent, read it from there, otherwise keep it empty
                 if self.parent:
-                    sectors_read.append(self.parent.read_sectors(sector, read_count))
+                    sectors_read.append(self._read_parent_sectors(sector, read_count))
                 else:
                     sectors_read.append(b"\x00" * read_size)
             elif bat_entry.state in (
@@ -156,7 +156,7 @@ class VHDX(AlignedStream):
                 for run_type, run_count in _iter_partial_runs(sector_bitmap, bit_idx, read_count):
                     if run_type == 0:
                         # Read from parent
-                        sectors_read.append(self.parent.read_sectors(sector + relative_sector, run_count))
+                        sectors_read.append(self._read_parent_sectors(sector + relative_sector, run_count))
                     else:
                         # Read from this file
                         # Here we are calculating relative to the block again
@@ -171,6 +171,12 @@ class VHDX(AlignedStream):
             count -= read_count
 
         return b"".join(sectors_read)
+
+    def _read_parent_sectors(self, sector: int, count: int) -> bytes:
+        # The parent may be smaller than this disk, anything beyond its end reads as zeros
+        parent_count = max(0, min(count, self.parent.size // self.sector_size - sector))
+        buf = self.parent.read_sectors(sector, parent_count) if parent_count else b""
+        return buf.ljust(count * self.sector_size, b"\x00")
 
     def _read(self, offset: int, length: int) -> bytes:
         # The aligned stream may ask for a full buffer past the end of the disk
